@@ -112,7 +112,7 @@ def run(ctx: Ctx):
     jobs = []
     for k in range(n_defs):
         d = M.gen_definition(ctx.rng, rational=(k % 2 == 0), min_sensors=1, max_sensors=2, max_states=4,
-                             force_cal=(True if k % 3 else None), force_control=(True if k % 4 == 1 else None))
+                             force_cal=(True if k % 3 else None), force_control=(True if k % 4 == 1 else None), force_bilinear=(k % 8 == 2))
         pts = [M.rnd_inputs(ctx.rng, d) for _ in range(n_points)]
         decl = {"container": ctx.rng.choice(["set", "list"]), "perm_seed": ctx.rng.randint(0, 10**6)}
         jobs.append({"defn": d, "cse": bool(k % 2 == 0 or k % 3 == 0), "decl": decl, "points": pts, "want": ["sensors", "jacobians"]})
